@@ -93,6 +93,9 @@ pub enum TyperError {
     /// Expression in a constant context could not be evaluated
     ExpressionIsNotConstantExpression(SourceLocation),
 
+    /// A bind group index is larger than any api supports
+    BindGroupIndexTooLarge(u32, SourceLocation),
+
     /// A variable was declared with an incomplete type
     VariableHasIncompleteType(ir::TypeId, SourceLocation),
 
@@ -693,6 +696,11 @@ impl CompileError for TyperExternalError {
                         get_type_string(*ty, context),
                     )
                 },
+                *loc,
+                Severity::Error,
+            ),
+            TyperError::BindGroupIndexTooLarge(index, loc) => w.write_message(
+                &|f| write!(f, "bind group index {index} is too large"),
                 *loc,
                 Severity::Error,
             ),
